@@ -34,6 +34,9 @@ class Unmodelled(Exception):
     pass
 
 
+CALL_SIGS = {}      # generated sub-routines: name -> (param types, return type)
+
+
 def ct(t):
     return [bool(t[0]), t[1]]
 
@@ -69,6 +72,13 @@ def ex(e):
         return ["macro", Q(e[1]), [ex(a) for a in e[2]], ct(e[3]), [ct(p) for p in gen.MACRO_PARAMS[e[1]]]]
     if k == "load":
         return ["load", e[3] == "s", e[4], ct(e[2])]
+    if k == "post":
+        return ["post", Q(e[1]), ct(e[3] if len(e) > 3 else (False, 32)), Q(e[2])]
+    if k == "call":
+        params = dict((c[0], c[1]) for c in gen.CALLS).get(e[1]) or CALL_SIGS[e[1]][0]
+        return ["call", Q(e[1]), [ex(a) for a in e[2]], ct(e[3]), [ct(p) for p in params]]
+    if k == "stmtexpr":
+        return ["stmtexpr", ct(e[2]), Q(e[3]), ex(e[4])]
     raise Unmodelled(k)
 
 
@@ -105,6 +115,10 @@ def stmts(ss):
             out.append(["skip", Q(s[1])])
         elif k == "block":
             out.extend(stmts(s[1]))
+        elif k == "exprstmt":
+            out.append(["exprstmt", ex(s[1])])
+        elif k == "ret":
+            out.append(["ret", ex(s[1])])
         else:
             raise Unmodelled(k)
     return out
@@ -137,7 +151,7 @@ def parse_sem(line: str) -> dict:
     return d
 
 
-def sem_requests(items, nstates: int, sd: int, cfg="asCode", fmt="READ_STATEMENTS"):
+def sem_requests(items, nstates: int, sd: int, cfg="asCode", fmt="READ_STATEMENTS", csubs=()):
     """items: outcomes of textcheck.gen_run (with 'ast' and 'text'). Returns [(index, request line)]."""
     reqs = []
     for i, it in enumerate(items):
@@ -146,5 +160,5 @@ def sem_requests(items, nstates: int, sd: int, cfg="asCode", fmt="READ_STATEMENT
         sxp = prog_sx(it["ast"])
         if sxp is None:
             continue
-        reqs.append((i, sx(["sem", cfg, sxp, Q(it["text"][fmt]), nstates, sd])))
+        reqs.append((i, sx(["sem", cfg, sxp, Q(it["text"][fmt]), nstates, sd, list(csubs)])))
     return reqs
